@@ -140,7 +140,7 @@ PROPS = {
             "assumptions": ["exhaustive refers to the ownership/config/toggle matrix of MC_Auth (every edge replayed); farm- and position-level "
                             "authorisation is judged on the farm/pool traces (C15_* guards), which are sampled"]},
     "C16": {"level": "model_checking", "models": [], "families": ["pool"]},
-    "C17": {"level": "model_checking", "models": ["MC_Pool"], "families": ["pool"]},
+    "C17": {"level": "model_checking", "models": ["MC_Pool"], "families": ["pool", "auth"]},
     "C19": {"level": "model_checking", "models": ["MC_Math", "MC_Stable"], "families": ["pool"]},
     "C05": {"level": "model_checking", "models": ["MC_FarmLife"], "families": ["farm", "pool"]},
     "C06": {"level": "model_checking", "models": ["MC_Farm", "MC_FarmLife"], "families": ["farm", "fault"], "proofs": ["proofs/FarmLemmas.tla"]},
